@@ -221,6 +221,22 @@ def check(run):
         except RaiseEx as e:
             ok, why = False, f'raises {e}'
         run.check(ok, 'D1', 'HashMap.set[address]' if not ok else f'address[wc={wc}]', why, prog.where(HMset))
+    # an address is a 267-bit key: a narrower dictionary must refuse it (not truncate it), a wider one stores the same 267-bit value
+    for w, want in ((256, False), (266, False), (267, True), (300, True)):
+        it = Interp(prog)
+        addr = it.new_inst(prog.cls('Address'))
+        addr.attrs.update(wc=K(0), hash_part=K(bytes(range(32))), is_bounceable=K(True), is_test_only=K(False), is_user_friendly=K(False), is_url_safe=K(False), anycast=K(None))
+        hm = new_map(it, prog, w)
+        try:
+            cm.call_method(it, hm, 'set', addr, K(1))
+            got = True
+        except RaiseEx:
+            got = False
+        keys = map_keys(hm)
+        image = (0b100 << 264) | int.from_bytes(bytes(range(32)), 'big')
+        ok = got == want and (not got and not keys or got and len(keys) == 1 and isinstance(keys[0], K) and keys[0].v == image)
+        run.check(ok, 'D1', 'HashMap.set[address, width]' if not ok else f'address[w={w}]', f'address key in a dictionary of width {w}: {"accepted" if got else "rejected"} with keys {[hex(k.v)[:14] if isinstance(k, K) else vrepr(k) for k in keys]}; '
+                  f'must be {"stored as its 267-bit image" if want else "rejected (267 bits do not fit)"}', prog.where(HMset))
     # key_serializer route
     for ret, want in ((5, True), (256, False), (-1, False)):
         it = Interp(prog)
